@@ -2,7 +2,7 @@
    Property theorems only; proofs live in Proofs/InputsP.v, Proofs/AcceptsP.v, Proofs/DefaultsP.v. *)
 From Coq Require Import List String Ascii ZArith Bool Lia.
 From AC Require Import Base.Json Base.Strs Gql.InSchema Gql.InCoerce Model.Names Model.Defaults Model.Inputs
-  Py.PyEval Proofs.InputsP Proofs.FreshP Proofs.AcceptsP Proofs.DefaultsP Proofs.ValidateP Proofs.ByNameP Proofs.ReshapeP.
+  Py.PyEval Proofs.InputsP Proofs.FreshP Proofs.AcceptsP Proofs.DefaultsP Proofs.ValidateP Proofs.ByNameP Proofs.ReshapeP Proofs.ChainP.
 Import ListNotations.
 Local Open Scope string_scope.
 
@@ -409,6 +409,55 @@ Proof.
   exists (S m), b, v, jd. exact H.
 Qed.
 Print Assumptions C06_default_roundtrip_original_literal.
+
+(* ================= default chains through object defaults of omitted fields ================= *)
+(* Guard on the schema (boolean): every schema default is of a covered shape — scalars, enums, null, lists, objects
+   that may omit ANY defaulted or nullable field — and already has the shape of its type.  Fuel accounting is
+   explicit: one unit of the specification's fuel per nesting level costs at most two on the Python side
+   (validate -> default factory -> model_validate), hence 2n < k. *)
+Theorem C06_default_roundtrip_chain : forall s cs snake, schema_ok snake s = true -> defaults_good s = true ->
+  forall fs f lit n cv k,
+  emitted_default s f = Some lit -> good_default_c s lit (i_type f) = true ->
+  coerced_default n s (i_type f) lit = Some cv -> 2 * n < k ->
+  exists b v jd, default_body (rhs_default (p_value (gen_field s cs snake fs f))) = Some b /\
+                 eval k (env_of s cs snake) b = Ok v /\ dump v = Some jd /\
+                 strip_nulls jd = strip_nulls (json_of_cvalue cv).
+Proof.
+  intros s cs snake OK DG. apply (default_roundtrip_chain s cs snake OK (defaults_good_spec s DG)).
+Qed.
+Print Assumptions C06_default_roundtrip_chain.
+
+(* model_validate of a literal whose omitted fields chain through object defaults *)
+Theorem C06_validate_roundtrip_chain : forall s cs snake, schema_ok snake s = true -> defaults_good s = true ->
+  forall n lit t nb cv k, 2 * n <= k -> good_value_c s lit t = true -> (nb = false -> lit <> CNull) ->
+  coerced_default n s t lit = Some cv ->
+  exists v jd, validate k (env_of s cs snake) (fst (parse_input_field_type s cs t nb)) (json_of_cvalue lit) = Ok v /\
+               dump v = Some jd /\ strip_nulls jd = strip_nulls (json_of_cvalue cv).
+Proof.
+  intros s cs snake OK DG n. apply (proj1 (chain_roundtrip s cs snake OK (defaults_good_spec s DG) n)).
+Qed.
+Print Assumptions C06_validate_roundtrip_chain.
+
+Definition SCH : schema :=
+  [("Kind", DEnum ["A"; "class"]);
+   ("C", DInput [{| i_name := "x"; i_type := TNamed "Int"; i_default := None |};
+                 {| i_name := "k"; i_type := TNamed "Kind"; i_default := Some (CEnum "class") |}]);
+   ("B", DInput [{| i_name := "c"; i_type := TNamed "C"; i_default := Some (CObj [("x", CInt 1)]) |};
+                 {| i_name := "y"; i_type := TNonNull (TNamed "Int"); i_default := Some (CInt 2) |};
+                 {| i_name := "cs"; i_type := TList (TNonNull (TNamed "C")); i_default := Some (CList [CObj []]) |}]);
+   ("A", DInput [{| i_name := "b"; i_type := TNamed "B"; i_default := Some (CObj []) |}])].
+Example C06_chain_hypotheses_satisfiable :
+  schema_ok true SCH = true /\ defaults_good SCH = true /\
+  good_default_c SCH (CObj []) (TNamed "B") = true /\ good_default_w SCH (CObj []) (TNamed "B") = false /\
+  coerced_default 4 SCH (TNamed "B") (CObj []) =
+    Some (CObj [("c", CObj [("x", CInt 1); ("k", CEnum "class")]); ("y", CInt 2);
+                ("cs", CList [CObj [("k", CEnum "class")]])]) /\
+  match eval 9 (env_of SCH [] true) (const_value_node "B" (CObj []) true false) with
+  | Ok v => option_map strip_nulls (dump v)
+  | Err _ => None
+  end = Some (JObj [("c", JObj [("x", JInt 1); ("k", JStr "class")]); ("y", JInt 2);
+                    ("cs", JArr [JObj [("k", JStr "class")]])]).
+Proof. vm_compute. repeat split; reflexivity. Qed.
 
 (* ================= non-vacuity ================= *)
 Definition SX : schema :=
